@@ -3454,7 +3454,9 @@ static CK_RV SymDecryptUpdate(Session* session, CK_BYTE_PTR pEncryptedData, CK_U
 		// There must always be one block left in padding mode if next operation is DecryptFinal.
 		// To guarantee that one byte is removed in padding mode when the number of blocks is calculated.
 		size_t paddingAdjustByte = cipher->getPaddingMode() ? 1 : 0;
-		int nrOfBlocks = (ulEncryptedDataLen + remainingSize - paddingAdjustByte) / blockSize;
+		int nrOfBlocks = 0;
+		if (ulEncryptedDataLen + remainingSize >= paddingAdjustByte)
+			nrOfBlocks = (ulEncryptedDataLen + remainingSize - paddingAdjustByte) / blockSize;
 		maxSize = nrOfBlocks * blockSize;
 	}
 	if (!cipher->checkMaximumBytes(ulEncryptedDataLen))
@@ -3562,6 +3564,12 @@ static CK_RV SymDecryptFinal(Session* session, CK_BYTE_PTR pDecryptedData, CK_UL
 		}
 		// It is at least one padding byte. If no padding the all remains will be returned.
 		size_t paddingAdjustByte = cipher->getPaddingMode() ? 1 : 0;
+		if (remainingSize < paddingAdjustByte)
+		{
+			session->resetOp();
+			DEBUG_MSG("There is no block left that could hold the padding");
+			return CKR_ENCRYPTED_DATA_LEN_RANGE;
+		}
 		size = remainingSize - paddingAdjustByte;
 	}
 
